@@ -52,6 +52,7 @@ def model_check(chk, name, c, *, invariants=ALL_INV, timeout=1500, workers=None)
     """Decide the invariants on the bounded state graph (VIEW hides hist)."""
     cfg = write_cfg(name, c, invariants=invariants, view="StateView")
     res = vkit.tlc("Bev", cfg, want_prints=False, timeout=timeout, coverage=True, workers=workers)
+    vkit.log("[mc] %s: %d distinct states, %.1fs" % (name, res.distinct, res.wall))
     chk.add_tlc(name, res)
     return res
 
@@ -70,6 +71,7 @@ def generate(chk, name, c, *, simulate=None, depth=60, seed=None, invariants=ALL
             hists.append(v)
     res = vkit.tlc("Bev", cfg, simulate=simulate, depth=depth if simulate else None, seed=seed, print_sink=sink,
                    timeout=timeout, workers=workers or (8 if simulate else vkit.NCPU))
+    vkit.log("[gen] %s: %d histories, %d states, %.1fs" % (name, len(hists), res.generated, res.wall))
     chk.add_tlc(name, res)
     return hists
 
